@@ -90,7 +90,8 @@ pub fn run(input: &str) -> Result<(), String> {
 }
 
 fn gen_text(rng: &mut Rng, maxlen: u64) -> Vec<u8> {
-    let alpha: &[u8] = match rng.below(3) { 0 => b"ab", 1 => b"ACGT", _ => b"abcde" };
+    // (the last alphabet reaches the top of the byte range: symbol + 1 must not be computed in u8)
+    let alpha: &[u8] = match rng.below(4) { 0 => b"ab", 1 => b"ACGT", 2 => b"abcde", _ => &[0x41, 0xFD, 0xFE, 0xFF] };
     let n = rng.below(maxlen) as usize;
     let mut t = rng.bytes(n, alpha);
     t.push(b'$');
@@ -98,7 +99,7 @@ fn gen_text(rng: &mut Rng, maxlen: u64) -> Vec<u8> {
 }
 /// texts with one or several sentinels, the sentinel byte not always '$' (it only has to be the smallest symbol)
 fn gen_text_multi(rng: &mut Rng, maxlen: u64) -> Vec<u8> {
-    let alpha: &[u8] = match rng.below(3) { 0 => b"ab", 1 => b"ACGT", _ => b"abcde" };
+    let alpha: &[u8] = match rng.below(4) { 0 => b"ab", 1 => b"ACGT", 2 => b"abcde", _ => &[0x41, 0xFD, 0xFE, 0xFF] };
     let sent = *rng.pick(&[b'$', b'#', 0u8, b'!', b'$']);
     let n = rng.below(maxlen) as usize;
     let mut t = rng.bytes(n, alpha);
